@@ -68,8 +68,18 @@ func (f *Function) Equal(i interface{}) bool {
 }
 
 // Equal tests two Values for equality. Any other type returns false.
-func (f *Function) EqualFunction(g *Function) bool {
+func (f *Function) EqualFunction(g *Function) (eq bool) {
 	// Function equality is undecidable in the general case. Should we panic?
+	if f == g {
+		return true
+	}
+	// The bodies of some expression types (e.g. array literals) hold slices and
+	// cannot be compared with ==: such functions are simply not known to be equal.
+	defer func() {
+		if recover() != nil {
+			eq = false
+		}
+	}()
 	return f.body == g.body
 }
 
